@@ -1,3 +1,4 @@
+import Gen.StrGen
 /-!
 # C03 — model of `asl::String` (include/asl/String.h, src/String.cpp).  Core Lean only.
 
@@ -10,6 +11,10 @@ growth policy), `append`/`assign` (source = external bytes or a piece of the str
 as the repaired code distinguishes them), the constructors, `trim`, `substring`, `concat`,
 the printf retry loops.  Every block read/write goes through `rd`/`wr`, which return `none`
 outside the block: "stays in bounds" is "never `none`".
+
+The storage constants (`ASL_STR_SPACE`, the first heap sizes, the 1 KiB switch, the sizes the number and printf
+constructors allocate, the `INT_MIN` literal of `myitoa`) are *regenerated* from the source on every run
+(`Gen/StrGen.lean`, written by `tools/props/c03.py translate`).
 -/
 set_option linter.unusedVariables false
 namespace AslModel.Str
@@ -183,7 +188,7 @@ decreasing_by omega
 def myitoa (x : Int) : Bytes :=
   if x = 0 then [48]
   else if x < 0 then
-    if x = -2147483648 then [45, 50, 49, 52, 55, 52, 56, 51, 54, 52, 56]
+    if x = -2147483648 then Gen.Str.intMinText          -- `strcpy(s, "-2147483648")`
     else 45 :: (digitsRev (-x).toNat).reverse
   else (digitsRev x.toNat).reverse
 
@@ -263,7 +268,8 @@ deriving Repr, BEq
 
 namespace Rep
 
-def SPACE : Nat := 16
+/-- `ASL_STR_SPACE` -/
+def SPACE : Nat := Gen.Str.space
 
 /-- `cap()` -/
 def cap (r : Rep) : Nat := if r.size = 0 then SPACE else r.size
@@ -274,13 +280,13 @@ def toList (r : Rep) : Bytes := r.buf.take r.len
 /-- `alloc(n)`: `if (n < 16) _size = 0; else { _size = max(++n, 20); _str = malloc(_size); }` (`_len` unset) -/
 def alloc (n : Nat) : Rep :=
   if n < SPACE then { size := 0, len := 0, buf := fresh SPACE }
-  else { size := max (n + 1) 20, len := 0, buf := fresh (max (n + 1) 20) }
+  else { size := max (n + 1) Gen.Str.allocMin, len := 0, buf := fresh (max (n + 1) Gen.Str.allocMin) }
 
 /-- `init(n)`: `alloc(n); _len = n;` -/
 def init (n : Nat) : Rep := { alloc n with len := n }
 
 /-- `String()`: `_size(0), _len(0), *_space = 0` -/
-def empty : Rep := { size := 0, len := 0, buf := 0 :: fresh 15 }
+def empty : Rep := { size := 0, len := 0, buf := 0 :: fresh (SPACE - 1) }
 
 /-- `String(int cap, int n)`: `init(max(cap, n)); _len = n; str()[n] = 0;` -/
 def ctor2 (cap n : Nat) : Option Rep :=
@@ -319,7 +325,7 @@ def resize (r : Rep) (n : Nat) (keep : Bool := true) (newlen : Bool := true) : O
       if newlen then (wr r.buf n [0]).map fun b => { r with buf := b, len := n }
       else some r
     else
-      let size := max (n + 1) 24
+      let size := max (n + 1) Gen.Str.heapMin
       let str2 := fresh size
       let str2? := if keep then (rd r.buf 0 (r.len + 1)).bind fun src => wr str2 0 src else some str2
       str2?.bind fun str2 =>
@@ -327,11 +333,11 @@ def resize (r : Rep) (n : Nat) (keep : Bool := true) (newlen : Bool := true) : O
         else some { size := size, len := r.len, buf := str2 }
   else
     let size2 := n + 1
-    let size3 := if r.size < 2 ^ 30 then 2 * r.size else 2147483647
+    let size3 := if r.size < Gen.Str.doubleBelow then 2 * r.size else Gen.Str.sizeMax
     let size2 := if size2 > r.size then max size3 size2 else r.size
     let r1? : Option Rep :=
       if size2 = r.size then some r
-      else if r.size < 1024 then
+      else if r.size < Gen.Str.reallocFrom then
         -- malloc + memcpy(str2, _str, min(n, _len + 1)) + free
         let str2 := fresh size2
         let str2? := if keep then (rd r.buf 0 (min n (r.len + 1))).bind fun src => wr str2 0 src else some str2
@@ -412,6 +418,13 @@ def clear (r : Rep) : Option Rep :=
 /-- what the scanning loops and libc see through `str()` -/
 def view (r : Rep) : Bytes := cstr r.buf
 
+/-- `startsWith(const String& s)`: `_len >= s.length() && strncmp(str(), s, s.length()) == 0` -/
+def startsWith (r : Rep) (p : Bytes) : Bool := r.len ≥ p.length && strncmp p.length r.view p == 0
+
+/-- `endsWith(const String& s)`: `_len >= s.length() && strncmp(str() + _len - s.length(), s, s.length()) == 0` -/
+def endsWith (r : Rep) (p : Bytes) : Bool :=
+  r.len ≥ p.length && strncmp p.length (r.view.drop (r.len - p.length)) p == 0
+
 /-- `trim()`: `memmove(s, s+i, j-i+1); s[j-i+1] = 0; _len = j-i+1;` (`J = j+1`) -/
 def trim (r : Rep) : Option Rep :=
   let s := r.toList
@@ -476,17 +489,18 @@ def ofText (allocN : Nat) (txt : Bytes) : Option Rep :=
   (wr a.buf 0 (txt ++ [0])).map fun b => { a with buf := b, len := txt.length }
 
 /-- `String(int x)`: `alloc(11); _len = myitoa(x, str());` -/
-def ofInt (x : Int) : Option Rep := ofText 11 (myitoa x)
+def ofInt (x : Int) : Option Rep := ofText Gen.Str.intAlloc (myitoa x)
 /-- `String(unsigned x)`: `alloc(10); _len = snprintf(str(), cap(), "%u", x);` -/
-def ofUInt (x : Nat) : Option Rep := ofText 10 (utoa x)
+def ofUInt (x : Nat) : Option Rep := ofText Gen.Str.uintAlloc (utoa x)
 /-- `String(Long x)`: `alloc((x < 10^15 && x > -10^14) ? 15 : 21); _len = myltoa(x, str());` -/
 def ofLong (x : Int) : Option Rep :=
-  ofText (if x < 1000000000000000 ∧ x > -100000000000000 then 15 else 21) (myltoa x)
+  ofText (if x < (Gen.Str.longInlineBelow : Int) ∧ x > -(Gen.Str.longInlineAbove : Int) then SPACE - 1 else Gen.Str.longHeapAlloc) (myltoa x)
 /-- `String(ULong x)`: `alloc(x < 10^15 ? 15 : 21); _len = snprintf(str(), cap(), "%llu", x);` -/
-def ofULong (x : Nat) : Option Rep := ofText (if x < 1000000000000000 then 15 else 21) (utoa x)
+def ofULong (x : Nat) : Option Rep :=
+  ofText (if x < Gen.Str.ulongInlineBelow then SPACE - 1 else Gen.Str.ulongHeapAlloc) (utoa x)
 /-- `String(bool x)`: `alloc(5); strcpy(str(), x ? "true" : "false");` -/
 def ofBool (x : Bool) : Option Rep :=
-  ofText 5 (if x then [116, 114, 117, 101] else [102, 97, 108, 115, 101])
+  ofText Gen.Str.boolAlloc (if x then [116, 114, 117, 101] else [102, 97, 108, 115, 101])
 
 /-! ### printf-style constructors: the retry loops around `vsnprintf` -/
 
@@ -507,14 +521,14 @@ def fmtLoop (text : Bytes) : Nat → Rep → Option Rep
 
 /-- `String(int n, const char* fmt, ...)`: `alloc(n ? n : 100)`, loop with `++i < 10`, `_len = n` -/
 def ofFormat (n0 : Nat) (text : Bytes) : Option Rep :=
-  fmtLoop text 9 (alloc (if n0 = 0 then 100 else n0))
+  fmtLoop text (Gen.Str.fmtTries - 1) (alloc (if n0 = 0 then Gen.Str.fmtDefault else n0))
 
 /-- `String::f(fmt, ...)`: first attempt into `char ss[256]` with `space = 255`; on success `s.assign(ss, n)`;
     otherwise `s.resize(n, false)` and the loop continues in the string's storage (`++i < 16`) -/
 def ofF (text : Bytes) : Option Rep :=
-  (vsnprintf (fresh 256) 255 text).bind fun ss =>
-    if text.length ≥ 255 then
-      (empty.resize text.length false).bind fun s => fmtLoop text 14 s
+  (vsnprintf (fresh Gen.Str.fStack) Gen.Str.fSpace text).bind fun ss =>
+    if text.length ≥ Gen.Str.fSpace then
+      (empty.resize text.length false).bind fun s => fmtLoop text (Gen.Str.fTries - 2) s
     else
       (rd ss 0 text.length).bind fun src => (empty.assign (.ext src)).map fun s => { s with len := text.length }
 
